@@ -2,6 +2,8 @@
   C08 (third part) — a reader's walk over a directory extent returns exactly the records written.
 -/
 import Ps3.Proof.IsoDir
+import Ps3.Model.Crypt
+import Ps3.Proof.Proto
 import Ps3.Props.C08b
 namespace Ps3.Props.C08
 open Ps3 Ps3.Viso Ps3.Spec.IsoDir
@@ -142,5 +144,40 @@ theorem descriptors_point_to_root (L : Layout) (clk : Clock) (it : DirItem) (h0 
   rw [e1, e2]
   exact ⟨descriptor_root_record _ _ _ _ _ _ _ _ _ (Proof.BuildWF.dot_encode_len _ _ _ _),
          descriptor_root_record _ _ _ _ _ _ _ _ _ (Proof.BuildWF.dot_encode_len _ _ _ _)⟩
+
+/-- **The writer and the reader of region tables agree**: the table a generated PS3 image carries in
+    sector 0, decoded by the decrypting reader's own table decoder, is ONE plain region from sector 0
+    to the volume's LAST sector — under the reader's (inclusive) reading of `End` exactly the whole
+    volume. (With the exclusive reading the reader used to have, the image's last sector would have
+    counted as lying outside every plain region.) -/
+theorem ranges_sector_decodes (L : Layout) (hv : L.volSectors - 1 < 2 ^ 32) :
+    Crypt.decodeTable (fun off n => slice (rangesSector L) off n) = some [⟨0, L.volSectors - 1⟩] := by
+  have hr : ∃ pad, rangesSector L = (beN 4 1 ++ zeros 4 ++ beN 4 0 ++ beN 4 (L.volSectors - 1)) ++ pad := ⟨_, rfl⟩
+  obtain ⟨pad, hr⟩ := hr
+  have tk8 (x : Nat) : (beN 4 x).take 8 = beN 4 x := List.take_of_length_le (by simp)
+  have tk4 (x : Nat) : (beN 4 x).take 4 = beN 4 x := List.take_of_length_le (by simp)
+  have dr8 (x : Nat) : (beN 4 x).drop 8 = [] := List.drop_of_length_le (by simp)
+  have dr4 (x : Nat) : (beN 4 x).drop 4 = [] := List.drop_of_length_le (by simp)
+  have hlen : (beN 4 1 ++ zeros 4 ++ beN 4 0 ++ beN 4 (L.volSectors - 1)).length = 16 := by simp [zeros]
+  have h8 : slice (rangesSector L) 0 8 = beN 4 1 ++ zeros 4 := by
+    rw [hr, slice_append_left _ _ _ _ (by omega)]
+    simp [slice, zeros, List.take_append, beN_length, tk8]
+  have h16 : slice (rangesSector L) 8 8 = beN 4 0 ++ beN 4 (L.volSectors - 1) := by
+    rw [hr, slice_append_left _ _ _ _ (by omega)]
+    simp [slice, zeros, List.take_append, List.drop_append, beN_length, tk8, tk4, dr8]
+  have hc : fromBE (beN 4 1) = 1 := by decide
+  have h0 : fromBE (beN 4 0) = 0 := by decide
+  have hv' : fromBE (beN 4 (L.volSectors - 1)) = L.volSectors - 1 := Proof.Proto.fromBE_beN_lt 4 _ (by simpa using hv)
+  have hm : Crypt.maxRegions = 255 := rfl
+  have t4 : (beN 4 1 ++ zeros 4).take 4 = beN 4 1 := by simp [List.take_append, beN_length]
+  have hcount : fromBE ((slice (rangesSector L) 0 8).take 4) = 1 := by rw [h8, t4]; exact hc
+  have hl8 : (slice (rangesSector L) 0 8).length = 8 := by rw [h8]; simp [zeros]
+  have hl16 : (slice (rangesSector L) 8 8).length = 8 := by rw [h16]; simp
+  have ha : slice (slice (rangesSector L) 8 8) 0 4 = beN 4 0 := by
+    rw [h16]; simp [slice, List.take_append, beN_length, tk4]
+  have hb : slice (slice (rangesSector L) 8 8) 4 4 = beN 4 (L.volSectors - 1) := by
+    rw [h16]; simp [slice, List.take_append, List.drop_append, beN_length, tk4, dr4]
+  simp only [Crypt.decodeTable, hl8, hcount, hm, Nat.mul_one, hl16, bne_self_eq_false, Bool.false_eq_true, if_false,
+    show ¬ (1 > 255) by omega, List.range_one, List.map_cons, List.map_nil, Nat.mul_zero, Nat.zero_add, ha, hb, h0, hv']
 
 end Ps3.Props.C08
